@@ -3,6 +3,7 @@ package props
 import (
 	"fmt"
 	"go/token"
+	"go/types"
 
 	"golang.org/x/tools/go/ssa"
 
@@ -522,5 +523,127 @@ func ruleReusedDecodeTargetReset(h *H, rule string) {
 	if n == 0 {
 		h.Note("no reused UnmarshalVT target inside a loop in package server")
 		h.OK(rule, "reused decode targets", "", "none")
+	}
+}
+
+// ruleSyncCompletionsCovered: the WAL's sync loop completes every queued sync request of
+// a round with the result of one flush. The flush covers what had been appended when the
+// loop took its snapshot of the appended offset, so every request completed in the round
+// must have been received before that snapshot: no receive from the sync-request channel
+// (directly or through a helper) may be dominated by the snapshot. Otherwise an entry
+// appended after the snapshot is reported durable (and LastOffset() lags behind it).
+func ruleSyncCompletionsCovered(h *H, rule string) {
+	h.Rule(rule, "K1", "in the WAL sync loop no sync request is received after (dominated by) the read of the appended offset whose value is then stored as the synced offset", 1)
+	wt := h.implType(rule, "server/wal", "Wal")
+	if wt == nil {
+		return
+	}
+	tn := wt.Obj().Name()
+	flush := ir.Callee{Pkg: "server/wal", Recv: "ReadWriteSegment", Name: "Flush"}
+	isCbChan := func(t types.Type) bool {
+		ch, ok := t.Underlying().(*types.Chan)
+		if !ok {
+			return false
+		}
+		sig, ok := ch.Elem().Underlying().(*types.Signature)
+		return ok && sig.Params().Len() == 1 && ir.IsError(sig.Params().At(0).Type())
+	}
+	receives := func(in ssa.Instruction) bool {
+		switch x := in.(type) {
+		case *ssa.UnOp:
+			return x.Op == token.ARROW && isCbChan(x.X.Type())
+		case *ssa.Select:
+			for _, st := range x.States {
+				if st.Dir == types.RecvOnly && isCbChan(st.Chan.Type()) {
+					return true
+				}
+			}
+		}
+		return false
+	}
+	n := 0
+	for _, w := range h.P.FieldWrites("server/wal", tn, "lastSyncedOffset") {
+		if w.Val == nil || len(h.P.CallsIn(w.Fn, flush)) == 0 {
+			continue
+		}
+		snap, ok := ir.Canon(w.Val).(*ssa.Call)
+		if !ok {
+			continue
+		}
+		if _, isLoad := isAtomicCallOnField(snap, "Load", "server/wal", tn, "lastAppendedOffset"); !isLoad {
+			continue
+		}
+		fn := w.Fn
+		n++
+		h.Fn(ir.FuncName(fn))
+		bad := ""
+		ir.Instrs(fn, func(in ssa.Instruction) {
+			if bad != "" || !ir.Dominates(snap, in) {
+				return
+			}
+			isRecv := receives(in)
+			if ci, isCall := in.(ssa.CallInstruction); isCall && !isRecv {
+				if g := ci.Common().StaticCallee(); g != nil && ir.InRepo(g) && g.Blocks != nil {
+					seen := map[*ssa.Function]bool{}
+					var scan func(f *ssa.Function, d int) bool
+					scan = func(f *ssa.Function, d int) bool {
+						if seen[f] || d > 3 {
+							return false
+						}
+						seen[f] = true
+						found := false
+						ir.Instrs(f, func(x ssa.Instruction) {
+							if receives(x) {
+								found = true
+							}
+							if c2, ok := x.(ssa.CallInstruction); ok && !found {
+								if g2 := c2.Common().StaticCallee(); g2 != nil && ir.InRepo(g2) && g2.Blocks != nil && scan(g2, d+1) {
+									found = true
+								}
+							}
+						})
+						return found
+					}
+					isRecv = scan(g, 0)
+				}
+			}
+			if isRecv {
+				bad = "sync requests are still received at " + h.pos(in) + " after the appended offset was read (" + h.pos(snap) + "): an entry appended in between is reported durable by this round although the flush and the synced offset do not cover it"
+			}
+		})
+		h.Verdict(bad == "", rule, "sync round in "+ir.FuncName(fn), h.pos(snap), "all requests of a round are received before the snapshot of the appended offset", bad)
+		// the flush may only be skipped when the synced offset, read afresh in this round,
+		// already equals the snapshot: truncation / clear move the synced offset backwards,
+		// so a remembered copy can claim "already synced" for entries that are not
+		for _, fl := range h.P.CallsIn(fn, flush) {
+			skip := ""
+			for _, g := range ir.CmpGuards(fl) {
+				for _, c := range []ir.Cmp{g, g.Flip()} {
+					if ir.Canon(c.L) != ssa.Value(snap) && ir.Canon(c.R) != ssa.Value(snap) {
+						continue
+					}
+					other := c.L
+					if ir.Canon(c.L) == ssa.Value(snap) {
+						other = c.R
+					}
+					ld, isCall := ir.Canon(other).(*ssa.Call)
+					fresh := false
+					if isCall {
+						if _, isLoad := isAtomicCallOnField(ld, "Load", "server/wal", tn, "lastSyncedOffset"); isLoad {
+							if r, _ := ir.Reach(ir.Search{From: ld}, ir.Is(ld)); r {
+								fresh = true
+							}
+						}
+					}
+					if !fresh {
+						skip = "the flush is skipped by comparing the appended offset with " + ir.Describe(other) + ", not with the synced offset read in this round: after a truncation (which moves the synced offset back) re-appended entries are reported durable without a flush and LastOffset() does not advance"
+					}
+				}
+			}
+			h.Verdict(skip == "", rule, "flush skipped only when already synced in "+ir.FuncName(fn), h.pos(fl), "the skip test reads lastSyncedOffset afresh in every round", skip)
+		}
+	}
+	if n == 0 {
+		h.Anchor(rule, "the sync loop storing a snapshot of lastAppendedOffset into lastSyncedOffset after Flush")
 	}
 }
